@@ -218,8 +218,10 @@ func (c *Ctx) rangeObligations(eng *ranges.Engine, funcs map[*ssa.Function]bool,
 						st.assert++
 						if _, isIface := x.AssertedType.Underlying().(*types.Interface); isIface {
 							add("ASSERT", fn, "("+addrExpr(x.X)+").("+x.AssertedType.String()+")", report.OutOfScope, ins, "interface-to-interface assertion")
+						} else if dynamicTypeIs(x.X, x.AssertedType, 0) {
+							add("ASSERT", fn, "("+addrExpr(x.X)+").("+x.AssertedType.String()+")", report.Discharged, ins, "the operand is always built from a value of the asserted type (every return of the static callee / the conversion itself)")
 						} else {
-							add("ASSERT", fn, "("+addrExpr(x.X)+").("+x.AssertedType.String()+")", report.Violated, ins, "type assertion without comma-ok is reachable from a decoding entry point: a different dynamic type panics")
+							add("ASSERT", fn, "("+addrExpr(x.X)+").("+x.AssertedType.String()+")", report.Violated, ins, "type assertion without comma-ok is reachable from an entry point: a different dynamic type panics")
 						}
 					}
 				case *ssa.Panic:
@@ -230,6 +232,46 @@ func (c *Ctx) rangeObligations(eng *ranges.Engine, funcs map[*ssa.Function]bool,
 		}
 	}
 	return st
+}
+
+// dynamicTypeIs: interface value v certainly holds a non-nil value of concrete type t: it is the
+// conversion of such a value, or the result of a static call all of whose returns are.
+func dynamicTypeIs(v ssa.Value, t types.Type, depth int) bool {
+	if depth > 3 {
+		return false
+	}
+	switch x := v.(type) {
+	case *ssa.MakeInterface:
+		return types.Identical(x.X.Type(), t)
+	case *ssa.ChangeInterface:
+		return dynamicTypeIs(x.X, t, depth+1)
+	case *ssa.Phi:
+		for _, e := range x.Edges {
+			if !dynamicTypeIs(e, t, depth+1) {
+				return false
+			}
+		}
+		return len(x.Edges) > 0
+	case *ssa.Call:
+		sc := x.Call.StaticCallee()
+		if sc == nil || sc.Blocks == nil || sc.Signature.Results().Len() != 1 {
+			return false
+		}
+		n := 0
+		for _, b := range sc.Blocks {
+			if len(b.Instrs) == 0 {
+				continue
+			}
+			if ret, ok := b.Instrs[len(b.Instrs)-1].(*ssa.Return); ok && len(ret.Results) == 1 {
+				n++
+				if !dynamicTypeIs(ret.Results[0], t, depth+1) {
+					return false
+				}
+			}
+		}
+		return n > 0
+	}
+	return false
 }
 
 func runC08(c *Ctx) Info {
